@@ -34,6 +34,7 @@ KF = "KF-C05-01"
 ASBUILT_AFTER_FIXES = '{"NoMarkerEscape"}'
 KEYSEQ = ["_type", "_bytes", "_bytesio", "text"]
 NWORKERS = 12
+NODE_CAP = 1500          # abstract nodes (v + j + out + nb) per TLC-validated fixture event before lists are cut
 
 
 # --------------------------------------------------------------------------- plumbing
@@ -120,8 +121,6 @@ def _fast_validate(spec, cfg, traces, scratch, parallel=NWORKERS):
 def run(ctx):
     ev, v = ctx.ev, ctx.v
     t0 = time.time()
-    specs = ctx.scratch / "specs"
-    shutil.copytree(SPECS, specs, ignore=shutil.ignore_patterns("*.toolbox", "states", "*_TTrace_*"))
 
     # ---- 0. schema of the running code (reflective), generated constant module
     out, p = _worker("schema", {}, ctx.scratch, "schema")
@@ -142,56 +141,72 @@ def run(ctx):
     any_classes = [c for c in ("EmailAddress", "PdfImage", "DocxImage", "TableDim") if c in schema
                    and schema[c]["instantiable"]] or [type_name]
 
-    def write_schema(widths):
-        (specs / "SerialSchema.tla").write_text(
-            "---- MODULE SerialSchema ----\n(* generated by mbv/props/c05.py from the running code's registry *)\n"
-            f"GenShapes == {{{', '.join(to_tla(g) for _, g in sorted(shapes.items()))}}}\n"
-            f"Widths == {to_tla(list(widths))}\nKeySeq == {to_tla(KEYSEQ)}\n====\n")
+    def specdir(widths, tag=""):
+        """Private copy of specs/ with the generated SerialSchema for these enumeration bounds."""
+        d = ctx.scratch / ("specs-" + "-".join(map(str, widths)) + tag)
+        if not d.exists():
+            shutil.copytree(SPECS, d, ignore=shutil.ignore_patterns("*.toolbox", "states", "*_TTrace_*"))
+            (d / "SerialSchema.tla").write_text(
+                "---- MODULE SerialSchema ----\n(* generated by mbv/props/c05.py from the running code's registry *)\n"
+                f"GenShapes == {{{', '.join(to_tla(g) for _, g in sorted(shapes.items()))}}}\n"
+                f"Widths == {to_tla(list(widths))}\nKeySeq == {to_tla(KEYSEQ)}\n====\n")
+        return d
 
-    # ---- 1. theorem + sensitivity (meta schema)
+    # ---- 1. theorem + sensitivity (meta schema); the TLC runs go on in the background
     def meta_cfg(devs, invs):
         return ("SPECIFICATION Spec\nCONSTANTS\n Deviations = " + devs + '\n Mode = "meta"\n'
                 ' StrVocab = {"_type", "_bytes", "Leaf", "AAAA", "w"}\n TypeName = "Leaf"\n'
                 + "".join(f"INVARIANT {i}\n" for i in invs))
     ALL = ["Inv_Serialisable", "Inv_RoundTrip", "Inv_BinaryExcluded", "Inv_Wrap", "Inv_Cell"]
     meta_widths = [(2, 1, 1), (1, 2, 1)] if ctx.thorough else [(1, 1, 2)]
+    pool = ThreadPoolExecutor(6)
+    jobs = []          # (kind, name, extra, future)
     for w in meta_widths:
-        write_schema(w)
-        r = run_tlc(specs / "SerialGen", meta_cfg("{}", ALL), scratch=ctx.scratch, timeout=1500, heap="8g")
-        ev.tlc(f"SerialGen meta, reference design, Widths={w}: C05 on all well-typed values", r)
-        if r.violated:
-            raise MachineryError(f"reference design violates {r.violated}: the specification is wrong")
-    write_schema((1, 1, 2))
-    r = run_tlc(specs / "SerialGen", meta_cfg(ASBUILT_AFTER_FIXES, ["Inv_Serialisable", "Inv_RoundTripOutsideKF",
-                                                                    "Inv_BinaryExcluded", "Inv_Cell"]),
-                scratch=ctx.scratch, timeout=900)
-    ev.tlc("SerialGen meta, as-built after the proposed fixes: law holds outside the domain of " + KF, r)
-    if r.violated:
-        raise MachineryError(f"as-built model violates {r.violated} outside the finding's domain")
+        jobs.append(("theorem", f"SerialGen meta, reference design, Widths={w}: C05 on all well-typed values", None,
+                     pool.submit(run_tlc, specdir(w) / "SerialGen", meta_cfg("{}", ALL), scratch=ctx.scratch,
+                                 timeout=1500, heap="6g", workers=8 if ctx.thorough else 4)))
+    sd = specdir((1, 1, 2))
+    jobs.append(("theorem", "SerialGen meta, as-built after the proposed fixes: law holds outside the domain of " + KF, None,
+                 pool.submit(run_tlc, sd / "SerialGen",
+                             meta_cfg(ASBUILT_AFTER_FIXES, ["Inv_Serialisable", "Inv_RoundTripOutsideKF",
+                                                            "Inv_BinaryExcluded", "Inv_Cell"]),
+                             scratch=ctx.scratch, timeout=900, workers=4)))
     for devs, inv, why in [
         (ASBUILT_AFTER_FIXES, "Inv_RoundTrip", "marker dict in an Any position is confused (KF-C05-01)"),
         ('{"NoMarkerEscape", "MarkerBeforeHint"}', "Inv_RoundTripOutsideKF",
          "marker key in a Dict[...]-typed field hijacks from_json (fix c05-dict-hint-before-markers)"),
         ('{"PassThroughNonJson"}', "Inv_Cell", "timedelta cell is not JSON-serialisable (fix c05-xlsx-timedelta)"),
     ]:
-        r = run_tlc(specs / "SerialGen", meta_cfg(devs, [inv]), scratch=ctx.scratch, timeout=900, expect_fail=True)
-        ev.tlc(f"SerialGen sensitivity Deviations={devs}: {why}", r, note="expected violation")
-        if not r.violated:
-            raise MachineryError(f"sensitivity run Deviations={devs} did not fail: {inv} is vacuous")
-        if inv != "Inv_Cell" and r.trace:
-            ctx.log("counterexample", devs, "->", " ".join(r.trace[-1].split())[:260])
+        jobs.append(("sens", f"SerialGen sensitivity Deviations={devs}: {why}", (devs, inv),
+                     pool.submit(run_tlc, sd / "SerialGen", meta_cfg(devs, [inv]), scratch=ctx.scratch, timeout=900,
+                                 expect_fail=True, workers=2)))
 
-    ctx.log(f"theorem + sensitivity runs done ({time.time() - t0:.0f}s)")
+    def finish_meta():
+        for kind, name, extra, fut in jobs:
+            r = fut.result()
+            if kind == "theorem":
+                ev.tlc(name, r)
+                if r.violated:
+                    raise MachineryError(f"{name}: {r.violated} violated -- the specification is wrong")
+            else:
+                devs, inv = extra
+                ev.tlc(name, r, note="expected violation")
+                if not r.violated:
+                    raise MachineryError(f"sensitivity run Deviations={devs} did not fail: {inv} is vacuous")
+                if inv != "Inv_Cell" and r.trace:
+                    ctx.log("counterexample", devs, "->", " ".join(r.trace[-1].split())[:240])
+        pool.shutdown()
+
     # ---- 2. templates per hint shape of the running code
     tpl_widths = [(2, 1, 1), (1, 2, 1), (1, 1, 2)] if ctx.thorough else [(1, 1, 2)]
     templates = {k: {} for k in shapes}
     for w in tpl_widths:
-        write_schema(w)
         dump = ctx.scratch / f"tpl-{'-'.join(map(str, w))}.dump"
         cfg = ('SPECIFICATION Spec\nCONSTANTS\n Deviations = {}\n Mode = "templates"\n'
                f' StrVocab = {{"_type", "_bytes", "_bytesio", "{type_name}", "AAAA", "w", ""}}\n'
                f' TypeName = "{type_name}"\n')
-        r = run_tlc(specs / "SerialGen", cfg, scratch=ctx.scratch, dump=dump, timeout=1500, heap="8g")
+        r = run_tlc(specdir(w, "t") / "SerialGen", cfg, scratch=ctx.scratch, dump=dump, timeout=1500, heap="6g",
+                    workers=8)
         ev.tlc(f"SerialGen templates Widths={w}: well-typed values per hint shape of the registry", r)
         n = 0
         for s in iter_dump(dump if dump.exists() else Path(str(dump) + ".dump")):
@@ -208,7 +223,7 @@ def run(ctx):
     templates = {k: [t for _, t in sorted(d.items())] for k, d in templates.items()}
     if ctx.thorough:      # the widest shapes are subsampled (seeded) to keep the replay bounded
         import random
-        cap = 6000
+        cap = 2000
         for k in templates:
             if len(templates[k]) > cap:
                 templates[k] = sorted(random.Random(f"{ctx.seed}:{k}").sample(templates[k], cap),
@@ -319,6 +334,7 @@ def run(ctx):
                         where=where(e))
 
     ctx.log(f"single-event validation done: {len(st)} traces, {len(rej)} rejected by the law ({time.time() - t0:.0f}s)")
+    finish_meta()
     # ---- evidence
     ev.replayed(len(allev))
     for e in allev:
@@ -458,7 +474,7 @@ def _w_fixtures(job):
             e = None
             for keep in (0, 3, 1):
                 e = execute(r, keep)
-                if e["_nodes"] <= 5000:
+                if e["_nodes"] <= NODE_CAP:
                     break
             e["src"] = f"{rel}#{ri}"
             e["_suspect"] = has_marker_dict(e["v"])
@@ -471,18 +487,22 @@ def _w_fixtures(job):
                 units = []
             for ui in sorted(set(list(range(min(3, len(units)))) + ([len(units) - 1] if units else []))):
                 e = execute(units[ui], 0)
-                if e["_nodes"] > 5000:
-                    e = execute(units[ui], 2)
+                if e["_nodes"] > NODE_CAP:
+                    e = execute(units[ui], 1)
                 e["src"] = f"{rel}#{ri} unit {ui + 1}"
                 e["_suspect"] = has_marker_dict(e["v"])
                 events.append(e)
         if not serialisable:
             continue                    # already reported by the RoundTrip event; the CLI cannot do better
-        # CLI, only where two library extractions agree (determinism is C06's business)
+        # CLI, only where two fresh library extractions agree (determinism is C06's business); the result
+        # JSON is taken before the units are iterated (an accessor may write into the object)
         try:
-            again = list(sharepoint2text.read_file(path))
-            stable = all(lib_json(results, b) == lib_json(again, b) and lib_units(results, b) == lib_units(again, b)
-                         for b in (False, True))
+            snaps = []
+            for _ in range(2):
+                fresh = list(sharepoint2text.read_file(path))
+                snaps.append(({b: lib_json(fresh, b) for b in (False, True)},
+                              {b: lib_units(fresh, b) for b in (False, True)}))
+            stable = snaps[0] == snaps[1]
         except Exception:
             stable = False
         if not stable:
@@ -503,7 +523,7 @@ def _w_fixtures(job):
                     top = jt(parsed)
                     if top == "arr" and parsed:
                         inner = jt(parsed[0])
-                    lib = lib_json(results, binary) if mode == "json" else lib_units(results, binary)
+                    lib = snaps[0][0 if mode == "json" else 1][binary]
                     eq = parsed == lib or (len(lib) == 1 and parsed == lib[0])
                 except Exception:
                     top = "unparsable"
